@@ -1,6 +1,6 @@
 (* Driver for the C10 correspondence: runs the Router model on one case and renders every
    observable canonically (same rendering as harness/src/bin/c10.rs). *)
-From Coq Require Import String.
+From Coq Require Import String Ascii.
 From AV Require Import Lib.Base Lib.V Gen.Consts.
 From AV Require Export Router.Pattern.
 From AV Require Import Router.Match Router.Path Router.ResourceDef Router.Quoter.
@@ -23,8 +23,46 @@ Definition path_bytes (p : pathspec) : bytes :=
 Inductive case :=
 | KMatch (defs : list (bool * patterns)) (ps : list pathspec)
     (* every path: a fresh Path, the definitions (is_prefix, patterns) applied in sequence *)
+| KMatchS (defs : list (bool * patterns)) (paths : string)
+    (* the same with short paths given as one string: hex, each path terminated by ',' *)
 | KBuild (is_prefix : bool) (ps : patterns) (vals : list bytes)
 | KQuote (protected : bytes) (s : bytes).
+
+(* "2f61,2f,," -> [[47;97]; [47]; []] *)
+Fixpoint split_hex (s : string) (cur : bytes) : list bytes :=
+  match s with
+  | EmptyString => []
+  | String a r =>
+      if Ascii.eqb a ","%char then rev cur :: split_hex r []
+      else match r with
+           | String b r' => split_hex r' ((hexval_ascii a * 16 + hexval_ascii b) :: cur)
+           | EmptyString => []
+           end
+  end.
+
+(* Compact canonical text of a [V]; the harness produces the same text from the implementation's
+   observations, so that one string comparison decides a case (a large [V] term is slow to
+   elaborate, a string literal is not). *)
+Fixpoint hexN_aux (fuel : nat) (n : N) (acc : string) : string :=
+  match fuel with
+  | O => acc
+  | S f => let acc' := String (hexdigit (n mod 16)) acc in
+           if n <? 16 then acc' else hexN_aux f (n / 16) acc'
+  end.
+Definition hexN (n : N) (acc : string) : string := hexN_aux 40 n acc.
+
+Fixpoint ser (v : V) (acc : string) {struct v} : string :=
+  let fix go (xs : list V) (acc : string) {struct xs} : string :=
+      match xs with
+      | [] => acc
+      | x :: xs' => ser x (go xs' acc)
+      end in
+  match v with
+  | VN n => String "#"%char (hexN n (String ";"%char acc))
+  | VH h => String "x"%char (append h (String ";"%char acc))
+  | VT tag args => String "("%char (append tag (String ":"%char (go args (String ")"%char (String ";"%char acc)))))
+  | VL items => String "["%char (go items (String "]"%char (String ";"%char acc)))
+  end.
 
 Definition MAXSEG := ROUTER_MAX_DYNAMIC_SEGMENTS.
 
@@ -100,9 +138,13 @@ Definition run_quote (prot s : bytes) : V :=
   | Val q => VT "quote" [VOpt VBytesS (requote q s)]
   end.
 
-Definition run_C10 (c : case) : V :=
+Definition run_C10_v (c : case) : V :=
   match c with
   | KMatch ds ps => run_match ds ps
+  | KMatchS ds paths => run_match ds (map PBytes (split_hex paths []))
   | KBuild pre ps vals => run_build pre ps vals
   | KQuote prot s => run_quote prot s
   end.
+
+(* what the harness compares: the canonical text of all observables *)
+Definition run_C10 (c : case) : V := VH (ser (run_C10_v c) EmptyString).
